@@ -13,6 +13,7 @@ import (
 	"fmt"
 	"math/rand/v2"
 	"sync"
+	"sort"
 	"time"
 
 	abcicli "github.com/gnolang/gno/tm2/pkg/bft/abci/client"
@@ -47,6 +48,7 @@ type Node struct {
 	// Delivered votes (including own), in delivery order, for the lock-rule monitor.
 	Votes []*types.Vote
 	voteSeen map[string]bool
+	pacedHeight int64
 }
 
 // Msg is one gossipable message.
@@ -81,9 +83,11 @@ type Net struct {
 	Rng      *rand.Rand
 	Steps    int
 	Timeouts int
+	Paced    time.Duration // wall-clock time slept to keep the clock ahead of block time (see pace)
 	GenTime  time.Time
 	ValAddr  [][]byte
 	byzDone  map[string]bool
+	claimed  map[string]bool // "dst/h/r/type/blockhash": a peer told dst it has +2/3 for that block
 	served   map[int64]bool
 	commitCache map[int64]*types.Commit
 	// stats
@@ -98,7 +102,7 @@ type Net struct {
 
 // New builds a network. byz lists validator indices driven by the harness.
 func New(rng *rand.Rand, powers []int64, byz []int) *Net {
-	n := &Net{N: len(powers), Powers: powers, Byz: map[int]bool{}, have: map[string]*Msg{}, Rng: rng, byzDone: map[string]bool{}, ByHeight: map[int64][]*Msg{}, props: map[string][]*Msg{}, served: map[int64]bool{}, commitCache: map[int64]*types.Commit{},
+	n := &Net{N: len(powers), Powers: powers, Byz: map[int]bool{}, have: map[string]*Msg{}, Rng: rng, byzDone: map[string]bool{}, claimed: map[string]bool{}, ByHeight: map[int64][]*Msg{}, props: map[string][]*Msg{}, served: map[int64]bool{}, commitCache: map[int64]*types.Commit{},
 		GenTime: time.Unix(1_700_000_000, 0).UTC()}
 	for _, b := range byz {
 		n.Byz[b] = true
@@ -290,12 +294,34 @@ func (n *Net) Candidates(allow func(ni int, m *Msg) bool) (nodes []int, msgs []*
 	return
 }
 
+// pace keeps the wall clock consistent with the scheduler's virtual timeouts. Timeouts fire at once
+// here, but vote timestamps come from the wall clock (tmtime.Now) while block times advance by at
+// least the time iota per height: without pacing, block time runs ahead of the clock, an honest
+// nil precommit is stamped earlier than the block it follows, and (stray precommits being part of
+// the commit) the median time of the next block can fall behind its parent's - a state no node
+// with a sane configuration (a height lasts at least the iota) and a correct clock can reach.
+// Before a node acts at a new height the clock must have passed its last block's time + iota.
+func (n *Net) pace(nd *Node) {
+	h := nd.BS.Height()
+	if h <= nd.pacedHeight {
+		return
+	}
+	nd.pacedHeight = h
+	if meta := nd.BS.LoadBlockMeta(h); meta != nil {
+		if d := time.Until(meta.Header.Time.Add(time.Duration(types.BlockTimeIotaMS) * time.Millisecond)); d > 0 {
+			n.Paced += d
+			time.Sleep(d + time.Millisecond)
+		}
+	}
+}
+
 // Deliver hands m to node ni. A message the state machine did not take in
 // (vote for a round it does not track yet, proposal of another round, part of
 // an unknown part set) stays deliverable: it is offered again once the node's
 // height/round/step has changed, as a gossiping peer would.
 func (n *Net) Deliver(ni int, m *Msg) {
 	nd := n.Nodes[ni]
+	n.pace(nd)
 	if nd.seen[m.Key] {
 		n.Duplicates++
 	}
@@ -307,6 +333,10 @@ func (n *Net) Deliver(ni int, m *Msg) {
 	for nd.CS.VerifDrainInternal() > 0 {
 	}
 	n.Steps++
+	if Trace != nil {
+		h, r, st := nd.HRS()
+		Trace(fmt.Sprintf("deliver node=%d key=%s accepted=%v hrs=%d/%d/%v", ni, m.Key, n.accepted(nd, m), h, r, st))
+	}
 	if n.accepted(nd, m) {
 		nd.seen[m.Key] = true
 		m.Relayed = true
@@ -374,6 +404,7 @@ func (n *Net) accepted(nd *Node, m *Msg) bool {
 
 // FireTimeout fires node ni's pending timeout.
 func (n *Net) FireTimeout(ni int) bool {
+	n.pace(n.Nodes[ni])
 	if n.Nodes[ni].CS.VerifFireTimeout() {
 		n.Timeouts++
 		return true
@@ -401,13 +432,20 @@ func (n *Net) signVote(vi int, h int64, r int, t types.SignedMsgType, bid types.
 // every block id proposed so far at (h, r) and for nil — equivocation — each
 // vote restricted to a random audience.
 func (n *Net) ByzVotesFor(h int64, r int, audience func() map[int]bool) {
+	// fixed order (nil first, then proposals in the order they were made; byzantine validators by
+	// index): the schedule must be a function of the PRNG alone, not of map iteration order
+	keys := []string{"nil"}
 	ids := map[string]types.BlockID{"nil": {}}
 	for _, m := range n.props[fmt.Sprintf("%d/%d", h, r)] {
 		p := m.M.(*cs.ProposalMessage).Proposal
+		if _, ok := ids[string(p.BlockID.Hash)]; !ok {
+			keys = append(keys, string(p.BlockID.Hash))
+		}
 		ids[string(p.BlockID.Hash)] = p.BlockID
 	}
-	for b := range n.Byz {
-		for k, bid := range ids {
+	for _, b := range n.byzSorted() {
+		for _, k := range keys {
+			bid := ids[k]
 			for _, t := range []types.SignedMsgType{types.PrevoteType, types.PrecommitType} {
 				key := fmt.Sprintf("%d/%d/%d/%d/%x", b, h, r, t, k)
 				if n.byzDone[key] {
@@ -421,6 +459,15 @@ func (n *Net) ByzVotesFor(h int64, r int, audience func() map[int]bool) {
 			}
 		}
 	}
+}
+
+func (n *Net) byzSorted() []int {
+	var out []int
+	for b := range n.Byz {
+		out = append(out, b)
+	}
+	sort.Ints(out)
+	return out
 }
 
 // ByzPropose lets byzantine validator b (if it is the proposer of (h, r) in the
@@ -519,7 +566,12 @@ func (n *Net) needs(nd *Node, m *Msg) bool {
 		if got.BlockID.Equals(v.BlockID) {
 			return false
 		}
-		// a different vote of that validator is held: m is only useful if a peer claimed +2/3 for m's block
+		// a different vote of that validator is held: m is only useful if a peer claimed +2/3 for m's
+		// block (the vote set takes a conflicting vote in only then; without the claim it would be
+		// refused again and again, and offering it forever starves everything else)
+		if !n.claimed[fmt.Sprintf("%d/%d/%d/%d/%X", nd.Index, v.Height, v.Round, v.Type, v.BlockID.Hash)] {
+			return false
+		}
 		ba := vs.BitArrayByBlockID(v.BlockID)
 		return ba != nil && !ba.GetIndex(v.ValidatorIndex)
 	case 'P':
@@ -613,6 +665,9 @@ func (n *Net) ShareMaj23() {
 	}
 }
 
+// Trace, when set, receives one line per delivery and claim (debugging aid).
+var Trace func(string)
+
 func (n *Net) claim(src *Node, h int64, r int, t types.SignedMsgType, bid types.BlockID) {
 	for _, dst := range n.Honest() {
 		if dst == src {
@@ -622,12 +677,20 @@ func (n *Net) claim(src *Node, h int64, r int, t types.SignedMsgType, bid types.
 		if rs.Height != h || rs.Votes == nil {
 			continue
 		}
+		if (t == types.PrevoteType && rs.Votes.Prevotes(r) == nil) || (t == types.PrecommitType && rs.Votes.Precommits(r) == nil) {
+			continue // dst does not track that round yet: the claim would be dropped; it is made again later
+		}
 		key := fmt.Sprintf("maj23/%d/%d/%d/%d/%d/%X", src.Index, dst.Index, h, r, t, bid.Hash)
 		if n.byzDone[key] {
 			continue
 		}
 		n.byzDone[key] = true
-		rs.Votes.SetPeerMaj23(r, t, p2pID(fmt.Sprintf("node%d", src.Index)), bid)
+		if Trace != nil {
+			Trace(fmt.Sprintf("claim src=%d dst=%d h=%d r=%d t=%v block=%X", src.Index, dst.Index, h, r, t, bid.Hash))
+		}
+		if err := rs.Votes.SetPeerMaj23(r, t, p2pID(fmt.Sprintf("node%d", src.Index)), bid); err == nil {
+			n.claimed[fmt.Sprintf("%d/%d/%d/%d/%X", dst.Index, h, r, t, bid.Hash)] = true
+		}
 		n.Maj23Claims++
 		// votes for that block that were refused earlier become deliverable again
 		for _, m := range n.ByHeight[h] {
